@@ -72,3 +72,18 @@ inline bool rhumb_direct_writes(Quantity q, unsigned outmask) { return (q == Q_L
 inline bool rhumb_inverse_writes(Quantity q, unsigned outmask) { return (q == Q_DIST || q == Q_AZI || q == Q_AREA) && (outmask & OUTBIT[q]) != 0; }
 
 }  // namespace masksem
+
+namespace masksem {
+// ---- line constructors that register point 3 (Geodesic.hpp: "This function sets point 3 of the GeodesicLine to
+// correspond to point 2 of the inverse/direct geodesic problem") --------------------------------------------------------
+// DirectLine: the distance is the defining datum (DISTANCE_IN is supplied automatically: the line is specified by s12),
+//   the arc length is always known.  ArcDirectLine: the arc is the datum, the distance only with the DISTANCE capability.
+// InverseLine: the arc is always known; the distance whenever the line deals in distances at all (DISTANCE or DISTANCE_IN).
+inline bool directline_has_s13(unsigned) { return true; }
+inline bool directline_has_a13(unsigned) { return true; }
+inline bool arcdirectline_has_s13(unsigned caps) { return (caps & OUTBIT[Q_DIST]) != 0; }
+inline bool inverseline_has_s13(unsigned caps) { return (caps & (OUTBIT[Q_DIST] | BIT_DISTANCE_IN)) != 0; }
+// capabilities of the returned lines: DirectLine adds DISTANCE_IN; InverseLine adds DISTANCE when DISTANCE_IN is present
+inline unsigned directline_caps(unsigned caps) { return caps | BIT_DISTANCE_IN; }
+inline unsigned inverseline_caps(unsigned caps) { return (caps & BIT_DISTANCE_IN) ? (caps | OUTBIT[Q_DIST]) : caps; }
+}  // namespace masksem
